@@ -116,6 +116,17 @@ CHECKS = {
              "re-encoded byte-identically, loaded by the real yytables_fload (streams = in-code scanner; ASan/UBSan + leak check), "
              "truncated at ~60 offsets per file, concatenated in all orders, and checked with tables-verify scanners.",
         design="DESIGN.md section 6 C15", technique="machine-checked proof (Rocq) of the codec + proved decoder run on real files + differential loading"),
+    "C16": dict(
+        text="PARTIAL. Rocq theorems about the exit-status fold of flex_main()'s handler and the filter processes (coq/ExitStatus.v): "
+             "C16_exit_zero_iff_requested_and_children_ok, C16_own_failure_never_masked, C16_process_tree_zero_iff_every_stage_ok (if every "
+             "process waits for what it forked and folds like flex_main, status 0 <=> every stage finished its work). That each stage "
+             "does exit non-zero on an incomplete output is checked by write-failure injection on every output (scanner, stdout, header, "
+             "tables file, backup file x writable / full device / missing directory), with completeness (compilability, self-contained "
+             "header) of everything written when the status is 0. Robustness: 23 kinds of malformed and extreme specifications (limits at "
+             "2047..5000-byte names, 20000-byte lines, 5000-deep nesting, 8300 rules, large NFAs, binary garbage) against an ASan/UBSan build "
+             "of flex rebuilt from /repo: no signal, no sanitizer report, non-zero status always with a flex diagnostic. Robustness for "
+             "ALL inputs is not proved (no model of the whole generator).",
+        design="DESIGN.md section 6 C16", technique="machine-checked proof (Rocq) of the status fold + write-failure injection + generated malformed inputs against a sanitizer build"),
     "C17": dict(
         text="Rocq theorems C17_closed_check_sound / C17_never_selected: a verified closed set of specification states proves that a rule "
              "is never the selected one, for any start condition, line-start state and input; C17_witness_means_selected: a witness input "
